@@ -73,11 +73,11 @@ Proof.
 Qed.
 
 (* the state right after tickit_window_new_root: the whole root is damaged *)
-Theorem init_inv nl nc orc : 0 < nl -> 0 < nc -> r_fault (m_root (m_init nl nc orc)) = false ->
-  MInv (m_init nl nc orc).
+Theorem init_inv_f fuel nl nc orc : 0 < nl -> 0 < nc -> r_fault (m_root (m_init_f fuel nl nc orc)) = false ->
+  MInv (m_init_f fuel nl nc orc).
 Proof.
-  intros Hl Hc Hf. unfold m_init, MInv in *; cbn [m_root m_term m_app] in *.
-  set (st0 := root_new nl nc) in *.
+  intros Hl Hc Hf. unfold m_init_f, MInv in *; cbn [m_root m_term m_app] in *.
+  set (st0 := root_new_f fuel nl nc) in *.
   assert (Hch : t_chain 0 (r_tree st0) = Some [r_tree st0]) by reflexivity.
   assert (Hne0 : all_nonempty (r_damage st0)) by constructor.
   destruct (win_expose_spec st0 0 None Hne0) as (Hext & Hcov); [| exact Hf |].
@@ -101,3 +101,7 @@ Proof.
       * rewrite Hq. intros H; exfalso; apply H; reflexivity.
   - rewrite Htr. unfold ids_unique, st0; cbn. constructor; [intros []|constructor].
 Qed.
+
+Theorem init_inv nl nc orc : 0 < nl -> 0 < nc -> r_fault (m_root (m_init nl nc orc)) = false ->
+  MInv (m_init nl nc orc).
+Proof. exact (init_inv_f rsfuel nl nc orc). Qed.
